@@ -23,6 +23,7 @@ EXPLANATION = (
     "network timeout, never the connection timeout, so a gap between segments cannot turn into a "
     "'closed connection'. Not "
     "decided: behaviour under real inter-chunk delays (C08) and kernel semantics."
+    ' Second session: what the decoder is handed is computed by a small dataflow over the receive buffer (must be exactly recv(6) followed by recv(pdu_length)); header fields are extracted semantically (struct.unpack / int.from_bytes / index spellings); the connect() timeout typestate is path-sensitive over pure local tests (sock_model.ConnectModel).'
 )
 
 
